@@ -241,6 +241,10 @@ func (t *Tokenizer) tokenizeBuffer(buf []byte, last bool) {
 				if digitMap[b] != numDigit {
 					break
 				}
+				if gen.BigLimit < t.num.I { // another digit could overflow the uint64
+					t.num.AddDigit(b)
+					break
+				}
 				t.num.I = t.num.I*10 + uint64(b-'0')
 				if math.MaxInt64 < t.num.I {
 					t.num.FillBig()
